@@ -488,7 +488,7 @@ class Exec:
                 iomodel.frame_set(s, o, i, v, t)
             elif isinstance(o, PList) and isinstance(i, int): o.items[i] = v
             elif isinstance(o, Vec) and isinstance(i, int): o.xs[i] = v
-            elif isinstance(o, dict): o[i] = v
+            elif isinstance(o, dict): _dict_store(s, o, i, v, t)
             else: raise Unsupported("item assignment on %r[%r]" % (o, i), t)
         else: raise Unsupported("assignment target", t)
 
@@ -804,6 +804,20 @@ class Exec:
                 kwargs.update(m_); continue
             kwargs[k.arg] = s.eval(k.value, env)
         return s.apply(f, args, kwargs, e)
+
+    def e_DictComp(s, e, env):
+        """{k: v for x in <collection of concrete length>}: unrolled in order; a later entry whose key equals an earlier key on this path
+        overwrites it (the executor forks on the key equalities, as for look-ups)"""
+        if len(e.generators) != 1 or e.generators[0].ifs: raise Unsupported("dict comprehension form", e)
+        g = e.generators[0]; it = s.eval(g.iter, env)
+        items = it.items if isinstance(it, PList) else list(it) if isinstance(it, (list, tuple)) else None
+        if items is None: raise Unsupported("dict comprehension over a collection of symbolic length", e)
+        d = PDict()
+        for v in items:
+            env2 = dict(env); s.assign(g.target, v, env2)
+            k = s.eval(e.key, env2); val = s.eval(e.value, env2)
+            _dict_store(s, d, k, val, e)
+        return d
 
     def e_ListComp(s, e, env):
         if len(e.generators) != 1: raise Unsupported("comprehension form", e)
@@ -1192,6 +1206,15 @@ def _key_eq(s, a, b):
     if isinstance(a, (T, B)) or isinstance(b, (T, B)): return None
     try: return TRUE if (type(a) is type(b) and a == b) else None
     except Exception: return None
+
+
+def _dict_store(s, d, key, value, node=None):
+    """d[key] = value with Python's overwrite semantics for keys that are equal on this path (forks on the equalities)"""
+    if _has_term(key) and key not in d and d:
+        hit = _dict_find(s, d, key, node)
+        if hit is not None:
+            d[hit[0]] = value; return
+    d[key] = value
 
 
 def _dict_find(s, d, key, node=None):
